@@ -33,11 +33,13 @@ class _NS:
         self.__dict__.update(kw)
 
 
+import codecs as _codecs_module
 import colorsys as _colorsys_module
+import functools as _functools_module
 
-SAFE_MODULES = {'colorsys': _colorsys_module, 're': _re_module, 'operator': _operator_module, 'itertools': _itertools_module, 'collections': _collections_module,
+SAFE_MODULES = {'colorsys': _colorsys_module, 'functools': _functools_module, 'codecs': _codecs_module, 're': _re_module, 'operator': _operator_module, 'itertools': _itertools_module, 'collections': _collections_module,
                 'os': _NS(path=_posixpath_module), 'urllib': _NS(parse=_urlparse_module, request=_NS(pathname2url=_urlrequest_module.pathname2url))}
-_SAFE_VALUES = (_colorsys_module, _re_module, _operator_module, _itertools_module, _posixpath_module, _urlparse_module, _collections_module)
+_SAFE_VALUES = (_colorsys_module, _functools_module, _codecs_module, _re_module, _operator_module, _itertools_module, _posixpath_module, _urlparse_module, _collections_module)
 
 
 class _Return(Exception):
